@@ -8,7 +8,8 @@ RULE = (
     "p_mutation<1 and crossover<1 included; the per-generation segments of the time-stamped objective call log (a deme consults "
     "the GSC after each generation) are joined with deme.history: every individual of generation g is bit-equal to a member of "
     "g-1 or was evaluated in g's own segment; additionally an ea_class pass-through proxy checks that the parents handed to the "
-    "k-th engine run are exactly the offspring of the (k-1)-th. Non-trivial = a metaepoch with >=2 generations whose first "
+    "k-th engine run are exactly the offspring of the (k-1)-th; a dependence tier re-runs the scenario with the fitness "
+    "ranking of a CMA-ES deme's generation 0 reversed (same genomes) and requires generation 1 to change. Non-trivial = a metaepoch with >=2 generations whose first "
     "generation differs from the metaepoch's starting population; distinct = distinct scenario digests."
 )
 ASSUMPTIONS = ["the engine proxy is the documented ea_class extension point of EALevelConfig", "sentinel individuals (refused evaluations) are exempt"]
@@ -28,5 +29,106 @@ P = ScenarioProperty(
     thorough=30000,
     run_kwargs={"proxy_engines": True},
 )
-run_shard = P.run_shard
-replay = P.replay
+# ------------------------------------------------------------------------------------------------
+# dependence tier (CMA-ES): a generation that is bred from its predecessor must react to the predecessor's ranking.
+# Run A as generated; run B identical except that the objective returns, at the exact genomes of the CMA-ES deme's
+# generation 0, the values of the oppositely ranked members. Everything up to that generation is bit-identical, and
+# CMA-ES's next sampling distribution is a function of the ranking it is told - so generation 1 must differ.
+
+import numpy as np  # noqa: E402
+
+from ..common import Violation, shard_seed  # noqa: E402
+from ..driver import hyp_drive  # noqa: E402
+from ..harness import Run  # noqa: E402
+from ..scenario import scenario_summary, scenarios  # noqa: E402
+
+DEP_PROFILE = {
+    "levels": (2, 3),
+    "engines": ["SEA", "DE", "SHADE", "LHS", "CMA"],
+    "cma_weight": 12,
+    "local_weight": 0,
+    "sprouty": True,
+    "level_limit_min": 1,
+    "families": ["sphere", "rastrigin", "abssum", "twobasin", "linear"],
+    "max_wrappers": 0,
+    "cap": (6, 9),
+    "lsc_kinds": ["DontStop", "DontStop", "MetaepochLimit"],
+    "root_lsc_kinds": ["DontStop"],
+    "gsc_kinds": ["Never", "MetaepochLimit", "SingularProblemEvalLimitReached"],
+    "hibernation": 0.0,
+}
+
+
+def check_dependence(sc) -> tuple[list[Violation], bool]:
+    a = Run(sc)
+    a.run_all()
+    if a.crash or a.tree is None:
+        return [], False
+    target = None
+    for lvl in range(1, len(a.tree.levels)):
+        if sc["levels"][lvl]["engine"] != "CMA":
+            continue
+        for d in a.tree.levels[lvl]:
+            flat = d.history
+            if len(flat) >= 2 and len(flat[0]) >= 2:
+                vals = [float(i.fitness) for i in flat[0]]
+                if all(np.isfinite(vals)) and len(set(vals)) == len(vals):
+                    target = d
+                    break
+        if target is not None:
+            break
+    if target is None:
+        return [], False
+    g0 = target.history[0]
+    pts = [np.array(i.genome, dtype=float) for i in g0]
+    vals = [float(i.fitness) for i in g0]
+    order = sorted(range(len(vals)), key=lambda i: vals[i])
+    new_vals = list(vals)
+    for r, i in enumerate(order):
+        new_vals[i] = vals[order[len(order) - 1 - r]]  # rank r gets the value of rank k-1-r
+    sc_b = dict(sc)
+    sc_b["remap"] = {"points": [p.tolist() for p in pts], "values": new_vals}
+    b = Run(sc_b)
+    b.run_all()
+    if b.crash or b.tree is None:
+        return [], False
+    twin = next((d for _, d in b.tree.all_demes if d.id == target.id), None)
+    if twin is None or len(twin.history) < 2:
+        return [], False
+    h0 = twin.history[0]
+    if len(h0) != len(g0) or not all(np.array_equal(x.genome, y.genome) for x, y in zip(g0, h0)):
+        return [], False  # the two runs already differ before the generation in question: nothing to conclude
+    if [float(i.fitness) for i in h0] != new_vals:
+        return [], False
+    g1a, g1b = target.history[1], twin.history[1]
+    same = len(g1a) == len(g1b) and all(np.array_equal(x.genome, y.genome) for x, y in zip(g1a, g1b))
+    if same:
+        return [
+            Violation(
+                PROP,
+                "C11/cma-generation-ignores-predecessor",
+                f"CMA-ES deme {target.id}: reversing the fitness ranking of its generation 0 (same genomes, values {vals} -> {new_vals}) leaves generation 1 bit-identical: generation 1 is not bred from generation 0",
+            )
+        ], True
+    return [], True
+
+
+def run_shard(tier, seed, shard, nshards, tally, scale=1.0):
+    fs = P.run_shard(tier, seed, shard, nshards, tally, scale)
+    n = max(3, int({"quick": 480, "thorough": 10000}[tier] * scale / nshards))
+
+    def body(sc):
+        vs, applicable = check_dependence(sc)
+        tally.label("dependence:" + ("applicable" if applicable else "no_cma_deme_with_two_generations"))
+        tally.add_case({"dependence": sc}, applicable, sample={"dependence_twin": scenario_summary(sc)})
+        tally.count("dependence_cases")
+        return vs
+
+    fs += hyp_drive(PROP, scenarios(DEP_PROFILE), body, tally=tally, max_examples=n, seed=shard_seed(seed, shard, 31), kind="dependence")
+    return fs
+
+
+def replay(case, kind=""):
+    if kind == "dependence":
+        return check_dependence(case)[0]
+    return P.replay(case, kind)
